@@ -48,10 +48,11 @@ structure Inv (s : St) : Prop where
   -- the closer
   cl1 : ∀ (t : Tid), inClose (s.pcs t) = true → s.sh.a.closing = true ∧ t = clo s.sh
   cl2 : s.sh.a.closing = true → closerPc (s.pcs (clo s.sh)) = true
-  cl3 : ∀ (v : Nat) (b : Bid) (i : Nat), s.sh.a.closing = true → s.pcs (clo s.sh) = .pSet v b i →
+  cl3 : ∀ (v : Nat) (b : Bid) (i : Nat), s.sh.a.closing = true → wrSlot (s.pcs (clo s.sh)) = some (v, b, i) →
           i + 1 = s.sh.B ∧ b = s.sh.tail.blk
-  pset : ∀ (t : Tid) (v : Nat) (b : Bid) (i : Nat), s.pcs t = .pSet v b i →
+  pset : ∀ (t : Tid) (v : Nat) (b : Bid) (i : Nat), wrSlot (s.pcs t) = some (v, b, i) →
           b < s.sh.nb ∧ i < s.sh.B ∧ (i + 1 = s.sh.B → s.sh.a.closing = true ∧ t = clo s.sh)
+  psv : ∀ (t : Tid) (v : Nat) (b : Bid) (i : Nat), s.pcs t = .pSet v b i → s.sh.val b i = v
   pcas : ∀ (t : Tid) (v : Nat) (w : Word), s.pcs t = .pCas v w → w.blk < s.sh.nb ∧ w.idx < s.sh.B ∧ w.closing = false
   cAl : ∀ (t : Tid) (b : Bid), s.pcs t = .pAlloc b → b = s.sh.tail.blk
   cWt : ∀ (t : Tid) (b nn : Bid), s.pcs t = .pWait b nn → b = s.sh.tail.blk ∧ nn = s.sh.tail.blk + 2
@@ -70,11 +71,12 @@ structure Inv (s : St) : Prop where
   lHb : ∀ (hb : Bid), locHb (s.pcs 0) = some hb → hb = s.sh.headBlk
   lPi : ∀ (pi : Nat), locPi (s.pcs 0) = some pi → pi = s.sh.headIdx
   lCi : ∀ (ci : Nat), locCi (s.pcs 0) = some ci → ci = s.sh.a.head
-  lFast : ∀ (hb : Bid) (ci : Nat) (acc : List Nat), s.pcs 0 = .bFast hb ci acc → ci < (s.sh.headBlk + 1) * s.sh.B
+  lFast : isFast (s.pcs 0) = true → s.sh.a.head < (s.sh.headBlk + 1) * s.sh.B
   lStore : ∀ (hb : Bid) (ni : Nat) (acc : List Nat), s.pcs 0 = .bStore hb ni acc →
           0 < acc.length ∧ ni ≤ (s.sh.headBlk + 1) * s.sh.B
-  lCopy : ∀ (hb : Bid) (ci ce : Nat) (acc : List Nat), s.pcs 0 = .bCopy hb ci ce acc →
-          ci < ce ∧ ce ≤ (s.sh.headBlk + 1) * s.sh.B
+  lCopy : isCopy (s.pcs 0) = true →
+          s.sh.a.head < ceOf (s.pcs 0) ∧ ceOf (s.pcs 0) ≤ (s.sh.headBlk + 1) * s.sh.B
+  lRd : isRd (s.pcs 0) = true → s.sh.a.ready s.sh.a.head = true
   lHead : ∀ (nx : Bid) (k : K), s.pcs 0 = .rHead nx k → nx = s.sh.headBlk + 1
   -- Drop
   dE : dEnd (s.pcs 0) = true → s.sh.a.head = s.sh.a.res ∧ s.sh.a.closing = false
@@ -90,7 +92,7 @@ structure Inv (s : St) : Prop where
           (s.sh.live b = true ↔ (s.sh.headBlk ≤ b + (if atNextHead (s.pcs 0) = true then 0 else 1) ∧ b < s.sh.nb))
 
 theorem inv_init (B n : Nat) (hB : 0 < B) : Inv (init B n) := by
-  constructor <;> try (simp [init, initSh, MpscA.initSh, proj, hB, isCons0, isNew, dflag, inClose, locHb, locPi, locCi, dEnd]; done)
+  constructor <;> try (simp [init, initSh, MpscA.initSh, proj, hB, isCons0, isNew, dflag, inClose, locHb, locPi, locCi, dEnd, wrSlot, isRd, isFast, isCopy]; done)
   exact MpscA.inv_init B n
 
 /-! the product step, split into its concrete part and the level-A part -/
